@@ -175,4 +175,36 @@ theorem encodeAddr_length (a : Addr) (h : a.wf) : ((encodeAddr a).length : Int) 
   | ip ap => exact encodeAddrPort_length ap h
   | dom name port => simp [encodeAddr, addrLen, addrLenDomain, be16_length]; omega
 
+/-! ## the toy cryptography is an instance of the laws -/
+
+theorem toyTag_length (k n p : Bytes) : (toyTag k n p).length = 16 := by
+  simp [toyTag, u64bytes]
+
+/-- the driver's toy cryptography satisfies the laws the theorems assume (the hypothesis `Crypto.Laws` is satisfiable) -/
+theorem toyCrypto_laws : toyCrypto.Laws where
+  seal_len k n p := by simp [toyCrypto, toyTag_length]
+  open_seal k n p := by
+    simp only [toyCrypto, List.length_append, toyTag_length]
+    rw [if_neg (by omega)]
+    have e : p.length + 16 - 16 = p.length := by omega
+    simp [e]
+  open_len k n ct p h := by
+    simp only [toyCrypto] at h
+    split at h
+    · cases h
+    · next hl =>
+      split at h
+      · simp only [Option.some.injEq] at h
+        subst h
+        simp; omega
+      · cases h
+  enc_len k x := by simp [toyCrypto]
+  dec_len k x := by simp [toyCrypto]
+  dec_enc k x := by
+    simp only [toyCrypto, List.map_map]
+    have : ((fun b : UInt8 => b - toyKeyByte k) ∘ (fun b : UInt8 => b + toyKeyByte k)) = id := by
+      funext b; simp [UInt8.add_sub_cancel]
+    rw [this]; simp
+
+
 end SSV.Packet
